@@ -112,7 +112,7 @@ func (r *validationResponseHandler) HandleValidationResponse(
 
 	ccResp := ParseCCResponseDirectives(resp.Header)
 	switch {
-	case r.ce.CanStoreResponse(resp, ctx.CCReq, ccResp):
+	case resp.StatusCode != http.StatusNotModified && r.ce.CanStoreResponse(resp, ctx.CCReq, ccResp):
 		// RFC 9111 §4.3.3 Handling Validation Responses (full response)
 		// RFC 9111 §3.2 Storing Responses
 		_ = r.rs.StoreResponse(req, resp, ctx.URLKey, ctx.Refs, ctx.Start, ctx.End, ctx.RefIndex)
